@@ -133,6 +133,7 @@ def run(tier="quick", only_key=None):
     orders = (2,) if tier == "quick" else (1, 2, 3, 4)
     for parity in (0, 1):
         it = new_interp(ck.repo, parity=parity, stub_etdrk=True)
+        it.ctx.region_strict = True  # value-range dependent construction contradicts the documented formula
         cl = {}
         for pub, c in catalog.exported_steppers(it):
             cl[c.name] = c
@@ -276,6 +277,7 @@ def run(tier="quick", only_key=None):
             rows += 1
     # ---- (d) conversion functions
     it = new_interp(ck.repo, parity=0)
+    it.ctx.region_strict = True  # value-range dependent construction contradicts the documented formula
     ut = it.module("exponax.stepper.generic._utils").env
     gm = it.module("exponax.stepper.generic")
     exported = dict(catalog.all_list(it, "exponax.stepper.generic"))
